@@ -12,6 +12,7 @@ Conforms == LET e == Expected(params, path) IN
    /\ e.status = "ok" => /\ {[name |-> Rec.out[i].name, shape |-> Rec.out[i].shape] : i \in 1..Len(Rec.out)} = e.decls
                           /\ Rec.ids_out = ids          \* identifiers: strings, same order
                           /\ Rec.values_ok              \* values equal (single precision through tensors)
+                          /\ Rec.chain_ok               \* the converted container, turned into tensors, still files every row under its identifier
 \* additions that must be refused are refused with the container's input error, valid ones accepted
 \* (checked on the freshly built container and again on the container obtained through the conversion path)
 AddRules == Rec.adds_ok /\ (Rec.status = "ok" => Rec.adds_after_ok)
